@@ -10,7 +10,9 @@ import (
 	"encoding/binary"
 	"encoding/json"
 	"fmt"
+	"io"
 	"math/rand"
+	"net"
 	"strings"
 	"sync"
 	"time"
@@ -110,6 +112,63 @@ func runC14(c c14Case) []c14Obs {
 		}
 		out[i] = c14Obs{Wire: rep.Wire, Xid: rep.Xid, NoRep: rep.Err != nil, Accept: rep.AcceptStatus, Data: rep.Data, Denied: rep.Status != 0}
 	}
+	if c.State == "connlimit" {
+		// the connection loop's own limiter: one TCP connection whose per-connection budget is 2 requests; every
+		// call is sent with its own XID and the reply record is taken as it comes off the wire
+		w.noTrace = true
+		rl := absnfs.DefaultRateLimiterConfig()
+		rl.GlobalRequestsPerSecond, rl.PerIPRequestsPerSecond, rl.PerIPBurstSize = 100000, 100000, 100000
+		rl.PerConnectionRequestsPerSecond, rl.PerConnectionBurstSize = 1, 2
+		w.srv.NFS.UpdatePolicyOptions(absnfs.PolicyOptions{Squash: "none", EnableRateLimiting: true, RateLimitConfig: &rl})
+		absnfs.VerifClockOff()
+		if err := w.srv.NFS.Export("/", 0); err != nil {
+			panic(err)
+		}
+		defer w.srv.NFS.Unexport()
+		conn, err := net.DialTimeout("tcp", fmt.Sprintf("127.0.0.1:%d", absnfs.VerifExportPort(w.srv.NFS)), 2*time.Second)
+		if err != nil {
+			panic(err)
+		}
+		defer conn.Close()
+		for i, q := range c.Calls {
+			cred := q.Cred
+			if cred.Flavor == 0 && cred.Raw == nil {
+				cred = rootCred()
+			}
+			xid := 0xc1400000 + uint32(i)*7919
+			msg := cat(encCallHdr(xid, 2, q.Prog, q.Vers, q.Proc, cred.Flavor, cred.body(), 0, nil), q.Args)
+			out[i] = c14Obs{Xid: xid, NoRep: true}
+			conn.SetDeadline(time.Now().Add(2 * time.Second))
+			if _, err := conn.Write(append(u32(0x80000000|uint32(len(msg))), msg...)); err != nil {
+				continue
+			}
+			var rec []byte
+			ok := false
+			for {
+				var hdr [4]byte
+				if _, err := io.ReadFull(conn, hdr[:]); err != nil {
+					break
+				}
+				h := binary.BigEndian.Uint32(hdr[:])
+				if h&0x7fffffff > 4<<20 {
+					break
+				}
+				buf := make([]byte, h&0x7fffffff)
+				if _, err := io.ReadFull(conn, buf); err != nil {
+					break
+				}
+				rec = append(rec, buf...)
+				if h&0x80000000 != 0 {
+					ok = true
+					break
+				}
+			}
+			if ok {
+				out[i] = c14Obs{Wire: rec, Xid: xid, Denied: len(rec) >= 12 && binary.BigEndian.Uint32(rec[8:]) == 1}
+			}
+		}
+		return out
+	}
 	if c.State != "drain" {
 		for i, q := range c.Calls {
 			callOne(i, q)
@@ -197,7 +256,11 @@ func judgeC14(r *Result, cases []c14Case, obs [][]c14Obs) {
 				var xid uint32
 				fmt.Sscanf(verdict, "ok xid=%d", &xid)
 				if xid != o.Xid {
-					r.violate(Violation{Class: "xid-not-echoed", What: fmt.Sprintf("reply carries xid %d for call %d", xid, o.Xid), Case: c14Case{State: c.State, Calls: []c14Call{q}}})
+					rc := c14Case{State: c.State, Calls: []c14Call{q}}
+					if c.State == "connlimit" {
+						rc.Calls = c.Calls[:j+1] // the calls sent on this connection so far
+					}
+					r.violate(Violation{Class: "xid-not-echoed", What: fmt.Sprintf("reply carries xid %d for call %d (call %d of state %s)", xid, o.Xid, j, c.State), Case: rc})
 				}
 				continue
 			}
@@ -288,9 +351,9 @@ func checkC14(r *Result, rng *rand.Rand, thorough bool) {
 		doneTraces()
 		compareSrv(r, "srv", *traces)
 	}()
-	r.Rule = "every NFSv3 procedure 0..21 (+22, 99), MOUNT 0..5 (+6), wrong versions, unknown program; arguments: well-formed over handles of a directory, file, symlink, removed file and a stale value, every truncation of them (quick: every 4th byte and +-1), random garbage; states: normal, read-only, rate-limited, policy drain; AUTH_SYS root/user, AUTH_NONE and unknown flavors; each reply decoded by the Lean RFC decoders"
+	r.Rule = "every NFSv3 procedure 0..21 (+22, 99), MOUNT 0..5 (+6), wrong versions, unknown program; arguments: well-formed over handles of a directory, file, symlink, removed file and a stale value, every truncation of them (quick: every 4th byte and +-1), random garbage; states: normal, read-only, rate-limited (per-operation limiter inside the handlers, and the connection loop's limiter over a real TCP connection with its per-connection budget exhausted), policy drain; AUTH_SYS root/user, AUTH_NONE and unknown flavors; each reply decoded by the Lean RFC decoders"
 	var cases []c14Case
-	for _, state := range []string{"normal", "readonly", "ratelimit", "drain"} {
+	for _, state := range []string{"normal", "readonly", "ratelimit", "drain", "connlimit"} {
 		w, hs := c14World(state)
 		w.Close()
 		valid := c14ValidArgs(hs, rng)
@@ -303,11 +366,11 @@ func checkC14(r *Result, rng *rand.Rand, thorough bool) {
 		for key, sets := range valid {
 			prog, proc := key[0], key[1]
 			for si, a := range sets {
-				if state == "drain" && si > 1 {
+				if (state == "drain" || state == "connlimit") && si > 1 {
 					break
 				}
 				c.Calls = append(c.Calls, c14Call{Prog: prog, Vers: 3, Proc: proc, Args: a})
-				if state == "drain" {
+				if state == "drain" || state == "connlimit" {
 					continue
 				}
 				if si < 3 || thorough {
